@@ -854,12 +854,14 @@ pub(crate) fn weak_new_cyclic_automatic_collection_panics() {
 //@ C12 C15 | complete | deciding | feat=full | fn=Cc::new,Cc::new_cyclic,trigger_collection | timeout=900
 #[cfg(feature = "auto-collect")]
 #[kani::proof]
-#[kani::unwind(9)]
+#[kani::unwind(14)]
 pub(crate) fn creation_inside_a_running_collection_never_collects() {
     let h = mk_node(0);
     let x = raw_of(&h);
     crate::cc::add_to_list(x);
-    let (t0, c0) = havoc_idle(x, true);
+    // concrete header on purpose: if a collection does start, it runs on concrete control and the failing
+    // obligation is reported instead of a solver timeout (DESIGN 1: symbolic control is fatal)
+    let (t0, c0) = words_of(x);
     let (f, d): (bool, bool) = (kani::any(), kani::any());
     kani::assume(f || d);
     state(|s| sp::set_flags(s, true, f, d));
